@@ -35,6 +35,8 @@ IntLits_one == {I_1}
 IntLits_two == {I_1, I_128}
 IntLits_all == {I_0, I_1, I_2, I_128, I_500M, I_hex, I_hex0, I_bin, I_big, I_imax, I_imin, I_umax} \cup I_suffixed
 ArrayLens_one == {[v |-> I_2.v, h |-> I_2.h]}
+\* two different lengths: nested array types with unequal dimensions ([2][128]T) in the types focus
+ArrayLens_two == {[v |-> l.v, h |-> l.h] : l \in {I_2, I_128}}
 ArrayLens_all == {[v |-> l.v, h |-> l.h] : l \in {I_0, I_2, I_128, I_500M}}
 
 (* ---- characters and strings: what is written (items) and the bytes it denotes ---- *)
